@@ -160,3 +160,264 @@ func ruleP14(p *Prog, r *Report) {
 	r.Floor(R, "dereferences of pointer phis", 10, nPhi)
 }
 
+
+// P16 the value of a comma-ok type assertion is used only where the flag was looked at.
+//
+// `v, _ := x.(T)` yields the zero T when x is something else; wrapped in an interface again (a helper that "returns nil
+// if the entry is not a T") the typed nil pointer compares unequal to nil and the caller's nil check lets it through -
+// the first method call dereferences nil. Obligation per comma-ok assertion in library code whose value result is
+// used: the ok result is used too (tested, returned or stored).
+func ruleP16(p *Prog, r *Report) {
+	const R = "P16"
+	n := 0
+	for _, f := range p.Funcs {
+		if p.IsTestFile(f.Pos()) || len(f.Blocks) == 0 {
+			continue
+		}
+		eachInstr(f, func(in ssa.Instruction) {
+			ta, ok := in.(*ssa.TypeAssert)
+			if !ok || !ta.CommaOk {
+				return
+			}
+			var val, flag *ssa.Extract
+			for _, ref := range *ta.Referrers() {
+				if ex, ok := ref.(*ssa.Extract); ok {
+					if ex.Index == 0 {
+						val = ex
+					} else {
+						flag = ex
+					}
+				}
+			}
+			if val == nil || val.Referrers() == nil || len(*val.Referrers()) == 0 {
+				return
+			}
+			n++
+			used := flag != nil && flag.Referrers() != nil && len(*flag.Referrers()) > 0
+			if !used {
+				// `p, _ := x.(*T); if p == nil { .. }` is the same test spelled differently: accepted when the pointer never
+				// goes back into an interface and is only dereferenced where it is known non-nil
+				if _, isPtr := val.Type().Underlying().(*types.Pointer); isPtr {
+					safe := true
+					for _, u := range *val.Referrers() {
+						switch y := u.(type) {
+						case *ssa.BinOp:
+							// comparisons are fine
+						case *ssa.FieldAddr, *ssa.Call, *ssa.UnOp:
+							if !knownNonNil(val, u.Block()) {
+								safe = false
+							}
+							_ = y
+						default:
+							safe = false
+						}
+					}
+					used = safe
+				}
+			}
+			r.Decide(used, R, "assertion-flag-consulted:"+p.Name(f), p.InstrPos(in), "the ok result of the assertion is used", "the value of a comma-ok type assertion is used although its ok result is discarded: when the operand is of another type the zero value flows on - a nil pointer that, once wrapped in an interface again, no longer compares equal to nil")
+		})
+	}
+	r.Floor(R, "comma-ok assertions whose value is used", 20, n)
+}
+
+// P17 a client decoder is handed a stream positioned at the start of its item.
+//
+// TypeInfoDecoder / StorableDecoder callbacks decode one whole CBOR item, tag included. A routine that peeks by
+// *consuming* the tag number (DecodeTagNumber) and then, finding a tag it does not own, passes the same stream to the
+// callback makes the callback decode the tag's content as if it were the item: a tagged type info comes back as
+// another type. Obligation per call of a func-typed value that is given a stream decoder: if a DecodeTagNumber on the
+// same decoder can reach it in the same function, the call lies on the equal edge of a comparison of that tag number
+// with a constant (a tag the library owns and whose content the callback is meant to read).
+func ruleP17(p *Prog, r *Report) {
+	const R = "P17"
+	n := 0
+	scope, _ := p.decodeScope()
+	for _, top := range sortedFuncs(p, scope) {
+		eachInstrDeep(top, func(fn *ssa.Function, in ssa.Instruction) {
+			c, ok := in.(*ssa.Call)
+			if !ok || c.Call.StaticCallee() != nil || c.Call.IsInvoke() {
+				return
+			}
+			if _, isB := c.Call.Value.(*ssa.Builtin); isB {
+				return
+			}
+			var dec ssa.Value
+			for _, a := range c.Call.Args {
+				if typeName(a.Type()) == "StreamDecoder" {
+					dec = a
+				}
+			}
+			if dec == nil {
+				return
+			}
+			n++
+			cons := "callback-at-item-start:" + p.Name(fn)
+			bad := ""
+			eachInstr(fn, func(y ssa.Instruction) {
+				tc, ok := y.(*ssa.Call)
+				if !ok || calleeName(tc) != "DecodeTagNumber" || callRecv(tc) == nil || !sameValue(callRecv(tc), dec) {
+					return
+				}
+				if canReach(fn, y, func(z ssa.Instruction) bool { return z == in }, nil) == nil {
+					return
+				}
+				var tag ssa.Value
+				for _, ref := range *tc.Referrers() {
+					if ex, ok := ref.(*ssa.Extract); ok && ex.Index == 0 {
+						tag = ex
+					}
+				}
+				owned := false
+				if tag != nil {
+					for _, b := range fn.Blocks {
+						ifi, ok := b.Instrs[len(b.Instrs)-1].(*ssa.If)
+						if !ok {
+							continue
+						}
+						bo, ok := ifi.Cond.(*ssa.BinOp)
+						if !ok || (bo.Op != token.EQL && bo.Op != token.NEQ) {
+							continue
+						}
+						isTag := func(v ssa.Value) bool { return v == tag || sameValue(canonConv(v), canonConv(tag)) }
+						_, kx := cInt(bo.X)
+						_, ky := cInt(bo.Y)
+						if !((isTag(bo.X) && ky) || (isTag(bo.Y) && kx)) {
+							continue
+						}
+						eq := 0
+						if bo.Op == token.NEQ {
+							eq = 1
+						}
+						if edgeDominates(b, eq, in.Block()) {
+							owned = true
+						}
+					}
+				}
+				if !owned {
+					bad = p.InstrPos(y)
+				}
+			})
+			r.Decide(bad == "", R, cons, p.InstrPos(in), "no tag number was taken from the stream before it is handed to the callback (or the tag is one the library owns)", "the stream handed to the client's decoder has already lost a tag number (DecodeTagNumber at "+bad+") that was not found equal to a tag the library owns: the callback decodes the tag's content as the whole item, so a tagged value comes back as something else")
+		})
+	}
+	r.Floor(R, "client decoder callbacks given a stream", 5, n)
+}
+
+// L37 a decoded size is the sum of what the parts report, not the number of bytes read.
+//
+// Encoded length and reported size differ on purpose for inlined composite maps (keys and digests are hoisted into the
+// shared extra data: fewer bytes in the register than the element reports). A decoder that sizes a list by the bytes
+// its stream consumed produces slabs that report less than the in-memory twin that wrote them. Obligation: in the
+// decode scope no value stored into a `size` field (directly or in a literal) derives from NumBytesDecoded().
+func ruleL37(p *Prog, r *Report) {
+	const R = "L37"
+	n := 0
+	scope, _ := p.decodeScope()
+	consumed := func(v ssa.Value) bool {
+		return sliceContains(v, func(x ssa.Value) bool {
+			c, ok := x.(*ssa.Call)
+			return ok && calleeName(c) == "NumBytesDecoded"
+		}, 0, map[ssa.Value]bool{})
+	}
+	for _, top := range sortedFuncs(p, scope) {
+		eachInstrDeep(top, func(fn *ssa.Function, in ssa.Instruction) {
+			st, ok := in.(*ssa.Store)
+			if !ok {
+				return
+			}
+			fa, ok := st.Addr.(*ssa.FieldAddr)
+			if !ok {
+				return
+			}
+			if _, name := structFieldName(fa.X.Type(), fa.Field); name != "size" {
+				return
+			}
+			n++
+			r.Decide(!consumed(st.Val), R, "size-from-parts:"+p.Name(fn), p.InstrPos(in), "the size does not derive from the number of bytes consumed", "a decoded size is computed from the number of bytes the stream consumed: elements whose reported size differs from their encoded length (inlined composite maps with hoisted keys) make the decoded slab report less than the slab that was written")
+		})
+	}
+	r.Floor(R, "size fields set by decoders", 8, n)
+}
+
+// L38 what Set / Remove hand back is what the container reported as overwritten / removed.
+//
+// The caller disposes of the storable it gets back and reads "nil" as "the key was new". Obligation per success
+// return of an exported method of a handle type with results (Storable, error) [or (Storable, Storable, error)]:
+// each storable result derives from a storable result of a call made in the method (the worker's answer, possibly
+// passed through the un-inlining helper), or it is the constant nil on a path on which such an answer was itself
+// found nil.
+func ruleL38(p *Prog, r *Report) {
+	const R = "L38"
+	n := 0
+	for _, top := range p.TopFuncs() {
+		if p.IsTestFile(top.Pos()) || !isHandleType(recvName(top)) || top.Object() == nil || !top.Object().Exported() {
+			continue
+		}
+		res := top.Signature.Results()
+		if res.Len() < 2 || !isErrorType(res.At(res.Len()-1).Type()) {
+			continue
+		}
+		var pos []int
+		for i := 0; i < res.Len()-1; i++ {
+			if tn := typeName(res.At(i).Type()); tn == "Storable" || tn == "MapKey" || tn == "MapValue" {
+				pos = append(pos, i)
+			}
+		}
+		if len(pos) == 0 {
+			continue
+		}
+		// storable answers of calls made here
+		var answers []ssa.Value
+		eachInstr(top, func(in ssa.Instruction) {
+			c, ok := in.(*ssa.Call)
+			if !ok {
+				return
+			}
+			tup, ok := c.Type().(*types.Tuple)
+			if !ok {
+				return
+			}
+			for _, ref := range *c.Referrers() {
+				if ex, ok := ref.(*ssa.Extract); ok && ex.Index < tup.Len() {
+					if tn := typeName(ex.Type()); tn == "Storable" || tn == "MapKey" || tn == "MapValue" {
+						answers = append(answers, ex)
+					}
+				}
+			}
+		})
+		if len(answers) == 0 {
+			continue
+		}
+		isAnswer := func(x ssa.Value) bool {
+			for _, a := range answers {
+				if x == a {
+					return true
+				}
+			}
+			return false
+		}
+		for _, ret := range returnsOf(top) {
+			if cl, _ := classifyReturn(ret); cl == retError {
+				continue
+			}
+			for _, i := range pos {
+				if i >= len(ret.Results) {
+					continue
+				}
+				n++
+				v := ret.Results[i]
+				ok := sliceContains(v, isAnswer, 0, map[ssa.Value]bool{})
+				if !ok && isNilConst(canon(v)) {
+					for _, a := range answers {
+						if knownNil(a, ret.Block()) {
+							ok = true
+						}
+					}
+				}
+				r.Decide(ok, R, "answer-handed-back:"+p.Name(top), p.InstrPos(ret), "the storable handed back is the worker's answer (or nil where that answer was nil)", "a success return hands back a storable that is not the one the container reported (a constant nil although an existing value was overwritten, or something else): the caller reads it as 'the key was new' and never disposes of - or wrongly disposes of - the previous value")
+			}
+		}
+	}
+	r.Floor(R, "storables handed back by Set / Remove", 4, n)
+}
